@@ -476,10 +476,49 @@ class C06(Check):
     harness_sources = ['harness/str.cpp']
     technique = ('machine-checked proof in Coq about a hand-written Gallina model; model tied to the code by an '
                  'extracted-model vs implementation correspondence check')
-    level_text = ''
-    level_note = ''
-    rule = ''
-    assumptions = []
+    level_text = ('Theorems in Coq (closed under the global context) about an executable model of the lazy-copy String that mirrors '
+                  'String.hpp/String.cpp method by method (variables = data pointers to emptyData / the inline non-owning descriptor / '
+                  'a heap block with cells, len, capacity, ref; immutable foreign regions for literals and attached memory; every read '
+                  'and write bounds-checked): for ALL histories of 50 operations over any number of String variables, '
+                  'string_refines_values (the model never fails with a memory error and the values and query results equal those of k '
+                  'independent byte lists under pure reference functions - construction, attach, copy/assign, append/prepend incl. the '
+                  'String itself as argument, resize/reserve/clear, write through char*, replace(char,char), replace(String,String), case '
+                  'mapping via the tables regenerated from String.cpp, trim, substr, token, split, join, printf bookkeeping, ==, compare*, '
+                  'find*, startsWith/endsWith, length), cstr_nul_terminated, copies_independent, foreign_memory_unchanged, '
+                  'self_args_as_if_copied, heap_invariant (ref = number of handles, no handle to a freed block, nothing live after the '
+                  'last destructor). The model is tied to the code by running the extracted model, the extracted reference and an '
+                  'ASan/UBSan build of the working tree on the same histories and comparing, after every operation and for every variable, '
+                  'length, bytes, results, and (read-only via private access) the sharing partition of the data pointers, ref, capacity, '
+                  'capacity(), terminator; literal/attached memory sits between poisoned guard areas and is re-read after every operation; '
+                  'allocations are tracked through the sanitizer allocator hooks (no block live at the end of a case).')
+    level_note = ('Partial in this sense: (1) printf - the bytes vsnprintf produced are an INPUT of the operation (harness: printf("%s", bytes)); '
+                  'only the detach/capacity/length bookkeeping of String::printf is modelled and proved. (2) libc strstr/strpbrk/strchr are '
+                  'reference functions on NUL-free text (find_first of a suffix predicate), trusted, not verified; the loops of libnstd '
+                  'around them (replace, split, token, trim, findLast, compare*) are mirrored and proved equal to the reference functions. '
+                  '(3) The C-string based operations are specified for NUL-free byte operands only (the quantifier of the property); outside '
+                  'that domain the reference is silent and the case is cut there ("! not-accepted"). (4) resize(n) beyond length() is driven '
+                  'as "resize, then fill the exposed bytes through operator char*()" so that no indeterminate byte is ever observable; the '
+                  'state "grown from empty without terminator" is therefore only crossed, not observed. (5) split is observed through its '
+                  'List result; the temporaries it creates are not part of the model state. (6) scanf, toInt/toDouble/fromInt, fromHex/'
+                  'fromBase64, hash(), operator+ are outside this property (C18 covers the codecs). (7) Sizes are assumed < 2^63 (no usize '
+                  'wrap). Trusted: Coq kernel, StrSpec.v as the reading of the property, extraction + OCaml driver, harness, generators, '
+                  'table translator. The theorems are about the model; the tie to the code is differential. Validated by correspondence '
+                  'only: nothing modelled is left unproved.')
+    rule = ('cases = histories over 1..5 String variables built by a steering shadow: constructors (default, literal via the array '
+            'constructor, buffer, fill, capacity, copy), attach to fresh or SHARED foreign buffers (terminated and unterminated windows), '
+            'and every mutator/query; sizes aim at the capacity decisions of detach (fit / exact / +1 / |3 boundaries / 0 / same), String '
+            'arguments are the variable itself or a sharer of its block with raised probability (stream selfargs: 70%), needles and '
+            'separator sets are cut out of the current value; streams: core (operations of the heap proof), text (all operations, '
+            'NUL-free), binary (embedded NUL, 0x80, 0xff), selfargs, long (60-140 operations, lengths to 300, printf around the 200/203 '
+            'boundary), scope1/scope2 (EXHAUSTIVE: every history of 1 resp. 2 operations of a 65-operation alphabet after a fixed prologue '
+            'with a literal, two variables sharing a block and an unterminated view). A case is non-trivial when the implementation\'s own '
+            'dump shows at least two of {block shared by two variables, view, unterminated view, capacity change, self argument} and it has '
+            '>= 3 mutating operations; distinct = distinct op text.')
+    assumptions = ['sizes < 2^63 (no usize wrap-around in capacity arithmetic)',
+                   'printf: formatting is an input (the operation carries the bytes vsnprintf produced)',
+                   'strstr/strpbrk/strchr of libc behave as first-occurrence search on NUL-free text (reference functions in StrModel.v)',
+                   'an indeterminate byte at str[len] is taken as non-zero by the C-string view (either answer yields a terminated view)',
+                   'StrSpec.v is the reading of the property text (values = byte lists, pure reference functions, domain predicate pre)']
     per_case_timeout = 2
 
     def __init__(self):
@@ -504,6 +543,9 @@ class C06(Check):
             if k is not None and obs[i] and obs[i][-1].startswith('end'):
                 obs[i] = obs[i][:-1] + ['! not-accepted', obs[i][-1]]
         return obs, crashes
+
+    def shrink(self, case, pred, budget=400):
+        return super().shrink(case, pred, budget=min(budget, 90))
 
     def judge(self, cases, impl_obs, spec_obs):
         """compare with the reference; the reason starts with a canonical 80-column key (operation, self
@@ -551,15 +593,15 @@ class C06(Check):
     def streams(self, tier, rng):
         th = tier == 'thorough'
         out = []
-        out.append(Stream('core', self.gen_stream(rng, 3000 if th else 500, (6, 30), ops=CORE_OPS),
-                          note='construct / copy / assign / attach / append / prepend / resize / reserve / clear / C-string view only (the operations of the main refinement proof), NUL-free text'))
-        out.append(Stream('text', self.gen_stream(rng, 4000 if th else 700, (6, 30)),
+        out.append(Stream('core', self.gen_stream(rng, 12000 if th else 1500, (6, 30), ops=CORE_OPS),
+                          note='construct / copy / assign / attach / append / prepend / resize / reserve / clear / C-string view only (the operations of the heap proof), NUL-free text'))
+        out.append(Stream('text', self.gen_stream(rng, 20000 if th else 2500, (6, 30)),
                           note='all operations, NUL-free text (the domain of the C-string based searches)'))
-        out.append(Stream('binary', self.gen_stream(rng, 2000 if th else 300, (6, 26), binary=True),
+        out.append(Stream('binary', self.gen_stream(rng, 8000 if th else 800, (6, 26), binary=True),
                           note='all operations, byte strings with embedded NUL bytes (C-string based operations only where the shadow knows the operand is NUL-free)'))
-        out.append(Stream('selfargs', self.gen_stream(rng, 2000 if th else 300, (5, 20), self_bias=0.7),
+        out.append(Stream('selfargs', self.gen_stream(rng, 8000 if th else 800, (5, 20), self_bias=0.7),
                           note='String arguments are the variable itself or a sharer of its block 70% of the time'))
-        out.append(Stream('long', self.gen_stream(rng, 200 if th else 30, (60, 140), big=True),
+        out.append(Stream('long', self.gen_stream(rng, 600 if th else 60, (60, 140), big=True),
                           note='long histories, lengths up to 300 (printf first/second pass, capacity growth)'))
         out.append(Stream('scope1', scope_cases(1, SCOPE_ALPHABET), exhaustive=True,
                           note='every single operation of a %d-operation alphabet after a fixed prologue (literal, shared owned, unterminated view)' % len(SCOPE_ALPHABET)))
